@@ -359,3 +359,41 @@ func stViolate(c *core.Ctx, class, format string, a ...any) {
 func logf(c *core.Ctx, format string, a ...any) {
 	c.Log.Add("%s", clean(c, fmt.Sprintf(format, a...)))
 }
+
+// snapStoreInfo describes a node's snapshot store: the raft index of the newest
+// snapshot directory (names are term-index-millis), whether some snapshot
+// directory holds a database file together with WAL files (an installed
+// snapshot), and a signature of the directory tree (names and sizes).
+func snapStoreInfo(dir string) (newest uint64, dbWithWAL bool, sig string) {
+	root := filepath.Join(dir, "wsnapshots")
+	es, _ := os.ReadDir(root)
+	var best [3]uint64
+	var sb strings.Builder
+	for _, e := range es {
+		if !e.IsDir() || strings.HasSuffix(e.Name(), ".tmp") {
+			continue
+		}
+		var k [3]uint64
+		if n, _ := fmt.Sscanf(e.Name(), "%d-%d-%d", &k[0], &k[1], &k[2]); n != 3 {
+			continue
+		}
+		if k[0] > best[0] || (k[0] == best[0] && (k[1] > best[1] || (k[1] == best[1] && k[2] >= best[2]))) {
+			best = k
+		}
+		fs, _ := os.ReadDir(filepath.Join(root, e.Name()))
+		hasDB, hasWAL := false, false
+		fmt.Fprintf(&sb, "%d-%d:", k[0], k[1])
+		for _, f := range fs {
+			fi, err := f.Info()
+			if err != nil {
+				continue
+			}
+			fmt.Fprintf(&sb, "%s=%d,", f.Name(), fi.Size())
+			hasDB = hasDB || f.Name() == "data.db"
+			hasWAL = hasWAL || strings.HasSuffix(f.Name(), ".wal")
+		}
+		sb.WriteString(";")
+		dbWithWAL = dbWithWAL || (hasDB && hasWAL)
+	}
+	return best[1], dbWithWAL, sb.String()
+}
